@@ -22,6 +22,8 @@ BENIGN_EXTERNAL = [
     r"^core::fmt::Formatter::<'_>::debug_\w+_fields?\d*_finish$",
     r"^<.* as core::fmt::(Display|Debug|UpperHex|LowerHex)>::fmt$",
     r"^core::fmt::(Display|Debug|UpperHex|LowerHex)::fmt$",
+    r"^core::fmt::num::(imp::)?<impl core::fmt::(Display|Debug|UpperHex|LowerHex|Binary|Octal) for [ui](8|16|32|64|128|size)>::fmt$",
+    r"^core::fmt::(float|num)::.*::fmt$",
     r"^alloc::str::<impl str>::repeat$",
 ]
 
